@@ -24,7 +24,7 @@ Source modelled:
 
 The model follows the repaired code: join on the key (4d10ac0), kept marker anchored at the start of
 the name (882e6bc), only the folder named `Logs` is skipped (14dc81b), a fully covered year counts its
-own number of days (d471a7e).
+own number of days (d471a7e), an open end is the end of the latest year recorded in the data (e320a70).
 
 A directory is a list of files `(name, content)`; a *listing* is whatever `os.scandir` returned for
 it (any permutation).  Summary tables are lists of `(key, row)` with key = (program, simulation) as
@@ -419,16 +419,18 @@ def maxDate (l : List (Option Date)) : Option Date :=
     | some a, none => some a
     | some a, some b => if a.ord < b.ord then some b else some a) none
 
-/-- contribution of one row to the yearly value (`none`: filtered out); `mx` = latest end date of
-the frame -/
+/-- contribution of one row to the yearly value (`none`: filtered out); `mx` = latest date recorded
+in the frame (start or end dates).  A row without end date is still active when the data ends: it
+lasts until Dec 31 of the year of `mx` (never before its own start, `mx` being the latest date) and,
+like every other row, counts only for the years up to its end (repaired code, e320a70) -/
 def rowShare (mx : Option Date) (year : Nat) (r : Int × Option Date × Option Date) : Option Rat :=
   match r.2.1 with
   | none => none
   | some st =>
-    if st.y ≤ year && (match r.2.2 with | none => true | some e => decide (year ≤ e.y)) then
-      let en : Date := match r.2.2 with
-        | some e => e
-        | none => { y := (match mx with | some m => m.y | none => year), m := 12, d := 31 }
+    let en : Date := match r.2.2 with
+      | some e => e
+      | none => { y := (match mx with | some m => m.y | none => st.y), m := 12, d := 31 }
+    if st.y ≤ year && decide (year ≤ en.y) then
       let soy : Date := { y := year, m := 1, d := 1 }
       let eoy : Date := { y := year, m := 12, d := 31 }
       let tt : Int × Int :=
@@ -439,9 +441,13 @@ def rowShare (mx : Option Date) (year : Nat) (r : Int × Option Date × Option D
       some ((r.1 : Rat) * ((tt.2 : Rat) / (tt.1 : Rat)))
     else none
 
+/-- latest date recorded in a frame: `df[[start, end]].max().max()` -/
+def latestDate (rows : List (Int × Option Date × Option Date)) : Option Date :=
+  maxDate (rows.map (fun r => r.2.1) ++ rows.map (fun r => r.2.2))
+
 /-- `get_yearly_value_for_multi_day_stat` on rows (value, start, end) of one frame -/
 def yearlyShare (rows : List (Int × Option Date × Option Date)) (year : Nat) : Rat :=
-  sumR (rows.filterMap (rowShare (maxDate (rows.map fun r => r.2.2)) year))
+  sumR (rows.filterMap (rowShare (latestDate rows) year))
 
 def dedup (l : List Nat) : List Nat := l.foldl (fun acc x => if acc.contains x then acc else acc ++ [x]) []
 
